@@ -34,9 +34,9 @@ def _ensure_lock():
 
 
 def kani_cmd(harnesses, target_dir, extra=()):
-    cmd = ['cargo', 'kani', '--target-dir', target_dir]
+    cmd = ['cargo', 'kani', '--target-dir', target_dir, '--exact']
     for h in harnesses:
-        cmd += ['--harness', h, '--exact'] if False else ['--harness', h]
+        cmd += ['--harness', '%s::%s' % (h.split('_')[0], h)]
     cmd += list(extra)
     return cmd
 
@@ -54,9 +54,19 @@ def parse_log(text):
             r['status'] = 'success'
         elif 'VERIFICATION:- FAILED' in body:
             r['status'] = 'failed'
-        m = re.search(r'\*\* (\d+) of (\d+) cover properties satisfied', body)
-        if m:
-            r['covers'] = (int(m.group(1)), int(m.group(2)))
+        # covers: the optimiser may duplicate a cover!() block; a cover location counts as witnessed
+        # when at least one of its copies is SATISFIED
+        cov = {}
+        for mm in re.finditer(r'Check \d+: \S+\.cover\.\d+\s*\n\s*- Status: (\w+)\s*\n\s*- Description: "([^"]*)"\s*\n\s*- Location: (\S+)', body):
+            key = (mm.group(3), mm.group(2))
+            cov[key] = cov.get(key, False) or (mm.group(1) == 'SATISFIED')
+        if cov:
+            r['covers'] = (sum(1 for v in cov.values() if v), len(cov))
+            r['uncovered'] = [k[1] for k, v in cov.items() if not v]
+        else:
+            m = re.search(r'\*\* (\d+) of (\d+) cover properties satisfied', body)
+            if m:
+                r['covers'] = (int(m.group(1)), int(m.group(2)))
         m = re.search(r'\*\* (\d+) of (\d+) failed', body)
         if m:
             r['failed_checks'] = int(m.group(1))
@@ -133,7 +143,7 @@ def run_property(S, prop):
         load[k] += h.get('expect_s', 60)
     stub = any(h.get('stubbing') for h in reg)
     jobs = []
-    base = {'C05': 0, 'C11': 4, 'C12': 8, 'C13': 12, 'C14': 16, 'C18': 20}.get(prop, 24)
+    base = 0
     for k, g in enumerate(groups):
         if not g:
             continue
@@ -162,7 +172,11 @@ def run_property(S, prop):
                 cov = r.get('covers')
                 if cov and cov[0] < cov[1]:
                     rec['verdict'] = 'vacuous'
-                    S.inconclusive.append('%s: %d of %d kani::cover! witnesses unsatisfied' % (h['id'], cov[1] - cov[0], cov[1]))
+                    if h.get('allow_uncovered') and set(r.get('uncovered', [])) <= set(h['allow_uncovered']):
+                        rec['verdict'] = 'holds'
+                        rec['covers'] = cov
+                    else:
+                        S.inconclusive.append('%s: %d of %d kani::cover! witnesses unsatisfied: %s' % (h['id'], cov[1] - cov[0], cov[1], r.get('uncovered')))
                 else:
                     rec['verdict'] = 'holds'
                     rec['covers'] = cov
@@ -207,7 +221,7 @@ def playback(prop, h):
     shutil.copytree(HARNESS, work, ignore=shutil.ignore_patterns('target', '.git'))
     tdir = os.path.join(CACHE, 'kani-target-playback')
     extra = ['-Z', 'stubbing'] if h.get('stubbing') else []
-    cmd = ['cargo', 'kani', '--target-dir', tdir, '--harness', h['harness'], '-Z', 'concrete-playback', '--concrete-playback=inplace'] + extra
+    cmd = ['cargo', 'kani', '--target-dir', tdir, '--exact', '--harness', '%s::%s' % (h['harness'].split('_')[0], h['harness']), '-Z', 'concrete-playback', '--concrete-playback=inplace'] + extra
     r = subprocess.run(cmd, cwd=work, env=_env(), stdout=subprocess.PIPE, stderr=subprocess.STDOUT, text=True, timeout=h.get('timeout_s', 600) + 600)
     src_changed = []
     for dp, dn, fn in os.walk(os.path.join(work, 'src')):
